@@ -913,11 +913,13 @@ coap_oscore_decrypt_pdu(coap_session_t *session,
   coap_bin_const_t rcvd_piv = { 0, NULL };
 #if COAP_CLIENT_SUPPORT
   coap_pdu_t *sent_pdu = NULL;
-  /* Appendix B.2 state to go back to if the response does not verify */
+#endif /* COAP_CLIENT_SUPPORT */
+  /* Appendix B.2 state to go back to if the message does not verify */
   int b_2_restore = 0;
   COAP_OSCORE_B_2_STEP b_2_prev_step = COAP_OSCORE_B_2_NONE;
   coap_bin_const_t *b_2_prev_id_context = NULL;
-#endif /* COAP_CLIENT_SUPPORT */
+  oscore_ctx_t *b_2_new_ctx = NULL;
+  oscore_recipient_ctx_t *b_2_prev_rcp_ctx = NULL;
 
   opt = coap_check_option(pdu, COAP_OPTION_OSCORE, &opt_iter);
   assert(opt);
@@ -1059,6 +1061,13 @@ coap_oscore_decrypt_pdu(coap_session_t *session,
           /* kid_context has been CBOR unwrapped */
           cose_encrypt0_set_kid_context(cose, (coap_bin_const_t *)&kid_context);
 
+          /*
+           * The kid context of the OSCORE option is not authenticated yet:
+           * what it changes is undone if the request does not verify.
+           */
+          b_2_restore = 1;
+          b_2_prev_step = session->b_2_step;
+          b_2_prev_rcp_ctx = session->recipient_ctx;
           if (session->oscore_r2 != 0) {
             /* B.2 step 4 */
             coap_bin_const_t *kc = coap_new_bin_const(cose->kid_context.s,
@@ -1066,6 +1075,15 @@ coap_oscore_decrypt_pdu(coap_session_t *session,
 
             if (kc == NULL)
               goto error;
+            if (osc_ctx->id_context) {
+              b_2_prev_id_context =
+                  coap_new_bin_const(osc_ctx->id_context->s,
+                                     osc_ctx->id_context->length);
+              if (b_2_prev_id_context == NULL) {
+                coap_delete_bin_const(kc);
+                goto error;
+              }
+            }
 
             session->b_2_step = COAP_OSCORE_B_2_STEP_4;
             coap_log_oscore("Appendix B.2 server step 4 (R2 || R3)\n");
@@ -1080,6 +1098,7 @@ coap_oscore_decrypt_pdu(coap_session_t *session,
                                            &cose->kid_context);
             if (osc_ctx == NULL)
               goto error;
+            b_2_new_ctx = osc_ctx;
             /*
              * Complete the Verify (B.2 step 2)
              * before sending back the response
@@ -1461,12 +1480,10 @@ coap_oscore_decrypt_pdu(coap_session_t *session,
 
   assert((size_t)pltxt_size < pdu->alloc_size + pdu->max_hdr_size);
 
-#if COAP_CLIENT_SUPPORT
-  /* The response is verified: the Appendix B.2 update stands */
+  /* The message is verified: the Appendix B.2 update stands */
   b_2_restore = 0;
   coap_delete_bin_const(b_2_prev_id_context);
   b_2_prev_id_context = NULL;
-#endif /* COAP_CLIENT_SUPPORT */
 
   if (coap_request) {
     /*
@@ -1787,17 +1804,22 @@ coap_oscore_decrypt_pdu(coap_session_t *session,
 error:
   coap_send_ack_lkd(session, pdu);
 error_no_ack:
-#if COAP_CLIENT_SUPPORT
   if (b_2_restore) {
     /*
-     * Appendix B.2: a response that did not verify must not leave the
-     * ID Context (and the keys derived from it) of its kid context behind.
+     * Appendix B.2: a message that did not verify must not leave the
+     * ID Context (and the keys derived from it) of its kid context behind,
+     * nor the security context that was set up for it.
      */
     session->b_2_step = b_2_prev_step;
     if (b_2_prev_id_context)
       oscore_update_ctx(osc_ctx, b_2_prev_id_context);
+    if (b_2_new_ctx) {
+      if (session->recipient_ctx &&
+          session->recipient_ctx->osc_ctx == b_2_new_ctx)
+        session->recipient_ctx = b_2_prev_rcp_ctx;
+      oscore_remove_context(session->context, b_2_new_ctx);
+    }
   }
-#endif /* COAP_CLIENT_SUPPORT */
   /*
    * A response that cannot be verified is dropped (RFC8613 8.4); the
    * association of its token stays for the genuine response.
